@@ -510,7 +510,31 @@ namespace chaiscript {
 
         uint_fast32_t loc = t_loc;
 
-        if (loc == 0) {
+        if ((loc & static_cast<uint_fast32_t>(Loc::is_local)) != 0u) {
+          auto &stack = get_stack_data(t_holder);
+
+          // The location was recorded by an earlier evaluation of the same node, possibly under a different
+          // arrangement of scopes and variables: it is only a hint. Use it when it still denotes the innermost
+          // binding of this name, otherwise look the name up again.
+          const auto depth = static_cast<std::size_t>((loc & static_cast<uint_fast32_t>(Loc::stack_mask)) >> 16);
+          const auto idx = static_cast<std::size_t>(loc & static_cast<uint_fast32_t>(Loc::loc_mask));
+          if (depth < stack.size()) {
+            auto &hinted = stack[stack.size() - 1 - depth];
+            bool shadowed = false;
+            for (std::size_t inner = 0; inner < depth && !shadowed; ++inner) {
+              shadowed = stack[stack.size() - 1 - inner].count(name) != 0;
+            }
+            if (!shadowed && idx < hinted.size() && (hinted.begin() + static_cast<std::ptrdiff_t>(idx))->first == name) {
+              return hinted.at_index(idx);
+            }
+          }
+
+          loc = 0;
+        }
+
+        // A location that says "global or function" is a hint as well: a local variable of this name may exist by now
+        // (declared later, or the node is evaluated in another frame), and locals take precedence.
+        {
           auto &stack = get_stack_data(t_holder);
 
           // Is it in the stack?
@@ -525,12 +549,9 @@ namespace chaiscript {
             }
           }
 
-          t_loc = static_cast<uint_fast32_t>(Loc::located);
-        } else if ((loc & static_cast<uint_fast32_t>(Loc::is_local)) != 0u) {
-          auto &stack = get_stack_data(t_holder);
-
-          return stack[stack.size() - 1 - ((loc & static_cast<uint_fast32_t>(Loc::stack_mask)) >> 16)].at_index(
-              loc & static_cast<uint_fast32_t>(Loc::loc_mask));
+          if (loc == 0) {
+            t_loc = static_cast<uint_fast32_t>(Loc::located);
+          }
         }
 
         // Is the value we are looking for a global or function?
